@@ -308,7 +308,11 @@ func runAliasList(c *Case) []string {
 	}
 	var t toks
 	var ds []int
-	for p := 0; p < len(fixed)+2*len(rep)+3; p++ {
+	upto := len(fixed) + 2*len(rep) + 3
+	if len(rep) > 0 {
+		upto = 230 // several blocks of the lazily produced digits
+	}
+	for p := 0; p < upto; p++ {
 		ds = append(ds, n.At(p))
 	}
 	t.ints(ds)
@@ -324,11 +328,21 @@ func genAliasList(r *Rng, emit func(Case), n int) {
 		if fixed[0] == 0 {
 			fixed[0] = 1 + r.Intn(9)
 		}
-		t.ints(fixed)
-		if ctor == "T" && r.Bool() {
-			t.ints(randDigits(r, r.Range(1, 4)))
-		} else {
+		if ctor == "T" && r.Intn(4) == 0 {
+			// no fixed part at all: the digits are the repeating block from the start
 			t.ints(nil)
+			rep := randDigits(r, r.Pick([]int{1, 2, 6, 7}))
+			if rep[0] == 0 {
+				rep[0] = 1 + r.Intn(9)
+			}
+			t.ints(rep)
+		} else {
+			t.ints(fixed)
+			if ctor == "T" && r.Bool() {
+				t.ints(randDigits(r, r.Range(1, 4)))
+			} else {
+				t.ints(nil)
+			}
 		}
 		t.i(r.Pick([]int{-2, 0, 3}))
 		t.i(r.Intn(3))
